@@ -4,7 +4,7 @@
 //   RUN <id> [first-op-index]                    start of a run (stream slots are reset)
 //   CFG <slot> <budget> <mode> <state> <flags>   configure stream slot (sink fault as an explicit op)
 //   OP <name> <seed> <p0> <p1> <slot> <fault> <a> <b> [value-class]
-//        fault: none | alloc k | allocfrom k | alloceach | sink budget mode | sinkeach | cold k persistent
+//        fault: none | alloc k | allocfrom k | alloc2 k1 k2 | alloceach | sink budget mode | sinkeach | cold k persistent
 //   PAIR <nameA> <seedA> <nameB> <seedB> <reps>     two threads at once (concurrent build only)
 //   EXITOP <name> <seed>                         queue the op to run during static destruction (after main returns)
 //   MODE <0..3>                                  set the floating-point rounding mode for the rest of the run
@@ -46,7 +46,7 @@ static void* vrt_alloc(std::size_t n, bool nothrow) {
   vrt::AllocState& a = vrt::g_alloc;
   if (a.counting) {
     long idx = a.count++;
-    if (a.fail_at >= 0 && (idx == a.fail_at || (a.fail_from && idx > a.fail_at))) {
+    if (a.fail_at >= 0 && (idx == a.fail_at || idx == a.fail_at2 || (a.fail_from && idx > a.fail_at))) {
       ++a.fired;
       if (nothrow) return nullptr;
       throw std::bad_alloc();
@@ -63,7 +63,7 @@ static void* vrt_alloc_aligned(std::size_t n, std::size_t al, bool nothrow) {
   vrt::AllocState& a = vrt::g_alloc;
   if (a.counting) {
     long idx = a.count++;
-    if (a.fail_at >= 0 && (idx == a.fail_at || (a.fail_from && idx > a.fail_at))) {
+    if (a.fail_at >= 0 && (idx == a.fail_at || idx == a.fail_at2 || (a.fail_from && idx > a.fail_at))) {
       ++a.fired;
       if (nothrow) return nullptr;
       throw std::bad_alloc();
@@ -303,10 +303,11 @@ void execute(const OpEntry& e, std::uint64_t seed, long p0, long p1, int slot, c
   check_outcome(e, r0, false, "none", st);
   if (r0.nonfinite) ++st.nonfinite;
   long fired_total = 0;
-  auto e1_alloc = [&](long k, bool from, std::ostream* os) {
-    g_phase = from ? "E1-allocfrom" : "E1-alloc";
+  auto e1_alloc = [&](long k, bool from, std::ostream* os, long k2 = -1) {
+    g_phase = from ? "E1-allocfrom" : (k2 >= 0 ? "E1-alloc2" : "E1-alloc");
     vrt::g_alloc = vrt::AllocState{};
     vrt::g_alloc.fail_at = k;
+    vrt::g_alloc.fail_at2 = k2;
     vrt::g_alloc.fail_from = from;
     vrt::g_armed = true;
     g_fault_armed = true;
@@ -318,7 +319,8 @@ void execute(const OpEntry& e, std::uint64_t seed, long p0, long p1, int slot, c
     long fired = vrt::g_alloc.fired;
     fired_total += fired;
     char fdesc[64];
-    std::snprintf(fdesc, sizeof fdesc, "%s:%ld", from ? "allocfrom" : "alloc", k);
+    if (k2 >= 0) std::snprintf(fdesc, sizeof fdesc, "alloc2:%ld:%ld", k, k2);
+    else std::snprintf(fdesc, sizeof fdesc, "%s:%ld", from ? "allocfrom" : "alloc", k);
     if (fired == 0) ++st.not_fired; else ++st.fired;
     check_outcome(e, r1, fired > 0, fdesc, st);
     if (r1.cls == 0 && fired > 0 && (r1.h != r0.h)) ++st.silent;
@@ -342,10 +344,14 @@ void execute(const OpEntry& e, std::uint64_t seed, long p0, long p1, int slot, c
     check_outcome(e, r1, false, fdesc, st);
   };
   std::ostream* slot_os = (stream_op && slot >= 0 && slot < vrt::kStreamSlots && g_slots[slot]) ? &g_slots[slot]->os : nullptr;
-  if (fault == "alloc" || fault == "allocfrom") {
+  if (fault == "alloc2") {
+    if (n > 1) e1_alloc(fa % n, false, slot_os, fb % n); else ++st.not_fired;
+  } else if (fault == "alloc" || fault == "allocfrom") {
     if (n > 0) e1_alloc(fa % n, fault == "allocfrom", slot_os); else { ++st.not_fired; if (slot_os) { run_once(e, c, seed, p0, p1, slot_os); ++st.execs; } }
   } else if (fault == "alloceach") {
     for (long k = 0; k < n; ++k) { e1_alloc(k, false, nullptr); if (n > 1 && k + 1 < n) e1_alloc(k, true, nullptr); }
+    // pairs of failures at two different indices (the first one is often swallowed inside a stream and the call goes on)
+    if (n >= 2 && n <= 12) for (long k = 0; k + 1 < n; ++k) for (long k2 = k + 1; k2 < n; ++k2) e1_alloc(k, false, nullptr, k2);
   } else if (fault == "sink" && stream_op) {
     e1_sink(len0 >= 0 ? fa % (len0 + 1) : 0, static_cast<int>(fb % 3), static_cast<int>((fb / 3) % 8));
   } else if (fault == "sinkeach" && stream_op) {
